@@ -494,15 +494,24 @@ for _site in ('res.data[0]', 'res.data[0] in `req = RTOX(res.data[0], self.did, 
 
 
 def _listen_dep_checks_length(f):
-    """ContactlessFrontend.listen returns a DEP target only after asserting 16 <= len(atr_req) inside the handler for AssertionError."""
-    for d in ast.walk(f.node):
-        if isinstance(d, ast.FunctionDef) and d.name == 'listen_dep':
-            for t in ast.walk(d):
-                if isinstance(t, ast.Try) and any(isinstance(x, ast.Assert) and norm(x.test) == 'len(target.atr_req) >= 16' for x in t.body) and \
-                        any(h.type is not None and 'AssertionError' in norm(h.type) for h in t.handlers):
-                    rets = [r for r in ast.walk(d) if isinstance(r, ast.Return)]
-                    return all(any(r is x for x in ast.walk(t)) for r in rets) and \
-                        all(not any(isinstance(x, ast.Return) for x in ast.walk(h)) for h in t.handlers)
+    """ContactlessFrontend.listen hands out a DEP target only after asserting 16 <= len(atr_req) inside the handler for AssertionError
+    (in a local function, or in listen itself when that function was merged into it)."""
+    import re
+    scopes = [f.node] + [d for d in ast.walk(f.node) if isinstance(d, ast.FunctionDef) and d is not f.node]
+    for d in scopes:
+        for t in ast.walk(d):
+            if not isinstance(t, ast.Try) or not any(h.type is not None and 'AssertionError' in norm(h.type) for h in t.handlers):
+                continue
+            names = [m.group(1) for x in t.body if isinstance(x, ast.Assert) for m in [re.match(r'len\((\w+)\.atr_req\) >= 16$', norm(x.test))] if m]
+            if not names:
+                continue
+            v = names[0]
+            # where the checked object leaves: `return v` / `self.target = v`, all inside the try body and behind the assert
+            outs = [x for x in ast.walk(d) if (isinstance(x, ast.Return) and x.value is not None and norm(x.value) == v) or
+                    (isinstance(x, ast.Assign) and norm(x.targets[0]) == 'self.target' and norm(x.value) == v)]
+            inside = [x for b in t.body for x in ast.walk(b)]
+            if outs and all(any(o is x for x in inside) for o in outs):
+                return True
     return False
 
 
